@@ -1,13 +1,14 @@
 """C03 — sources and single-input operators: termination shape (DESIGN §3 C03)."""
 from ..core import (Finding, lang_check, down_token, down_or_sched_token, SUBSCRIBE, FN_CALLS, down_method, node_desc)
 from .. import roles
+from ..expr import access_path, strip, walk
 
 ID = 'C03'
 LEVEL = 'other'
 EXPLANATION = ('LANG rules over the inlined MIR event graph of every source and every Observer impl: '
                'S1 each basic source delivers exactly its documented notification shape (of = next complete, never = nothing, ...); '
                'S2 error() forwards the error as the only downstream event (no item, aggregate or completion with it) and never swallows it; '
-               'S3 complete() delivers next* then exactly one complete; S5 is_finished answers true only for an empty slot or a finished downstream (otherwise a hot source skips the operator at its terminal); S6 the take_last/skip_last queues are first-in-first-out; S7 the take_last queue never holds more than `count` items after next(), for every count >= 0 (interval abstract interpretation of len - count); S8 the next() bodies of take, skip, skip_last, filter, take_while and skip_while agree with their definitions path by path (decision tables over the counter/bound difference, the predicate result and the mode flags; both directions); S9 distinct_until_(key_)changed replace their remembered item by the incoming one exactly when they forward it and never empty it; S10 value-flow definitions by path-sensitive provenance dataflow: last remembers every item and emits the remembered one, scan applies f(acc, item) once, stores and emits the new acc, default_if_empty clears its flag on every item and emits the default iff it is still set, pairwise emits (previous, item) and refills the previous slot, collect adds every item and emits the collection, map/tap/filter_map/on_error_map apply the user function once to the incoming value and forward as defined, contains answers true exactly on equality and false at the end, distinct(_key) forwards iff the key is new and then records it, buffer_with_count releases and empties the buffer exactly when it holds count items (undecidable terms pass); S13 initial state: a flag that the notification handlers only ever set to one constant starts as the other one, a counter they only increment starts at 0, wherever the state is constructed (through operator fields and constructors if need be); S12 no terminal is dropped silently: in error()/complete() of every Observer impl, a path that does nothing at all (no call, no write, no take) must have found the slot it would act on empty - an early return on any other condition swallows the terminal (tabled: the notifier sides that ignore their own terminal by definition); S11 the derived operators are the compositions their documentation states: the operator tree each ObservableExt builder returns (provided methods and constructors inlined) is compared with its definition — first = take(1), element_at(n) = skip(n).take(1), all = map.filter(not).take(1).default_if_empty(true), reduce = scan.last.default_if_empty(initial), count/sum/min/max/average with the arithmetic and the comparison direction of their folding functions, take_while vs take_while_inclusive by their flag (38 builders); S4 next() never sends an error and completes downstream only in the '
+               'S3 complete() delivers next* then exactly one complete; S5 is_finished answers true only for an empty slot or a finished downstream (otherwise a hot source skips the operator at its terminal); S6 the take_last/skip_last queues are first-in-first-out; S7 the take_last queue never holds more than `count` items after next(), for every count >= 0 (interval abstract interpretation of len - count); S8 the next() bodies of take, skip, skip_last, filter, take_while and skip_while agree with their definitions path by path (decision tables over the counter/bound difference, the predicate result and the mode flags; both directions); S9 distinct_until_(key_)changed replace their remembered item by the incoming one exactly when they forward it and never empty it; S10 value-flow definitions by path-sensitive provenance dataflow: last remembers every item and emits the remembered one, scan applies f(acc, item) once, stores and emits the new acc, default_if_empty clears its flag on every item and emits the default iff it is still set, pairwise emits (previous, item) and refills the previous slot, collect adds every item and emits the collection, map/tap/filter_map/on_error_map apply the user function once to the incoming value and forward as defined, contains answers true exactly on equality and false at the end, distinct(_key) forwards iff the key is new and then records it, buffer_with_count releases and empties the buffer exactly when it holds count items (undecidable terms pass); S13 initial state: a flag that the notification handlers only ever set to one constant starts as the other one, a counter they only increment starts at 0, wherever the state is constructed (through operator fields and constructors if need be); S14 no function takes the content of a shared slot (MutRc|MutArc<Option<..>>) out and stores the same value back later: while it is out the slot reads as terminated to every other input, thread and hot source; S12 no terminal is dropped silently: in error()/complete() of every Observer impl, a path that does nothing at all (no call, no write, no take) must have found the slot it would act on empty - an early return on any other condition swallows the terminal (tabled: the notifier sides that ignore their own terminal by definition); S11 the derived operators are the compositions their documentation states: the operator tree each ObservableExt builder returns (provided methods and constructors inlined) is compared with its definition — first = take(1), element_at(n) = skip(n).take(1), all = map.filter(not).take(1).default_if_empty(true), reduce = scan.last.default_if_empty(initial), count/sum/min/max/average with the arithmetic and the comparison direction of their folding functions, take_while vs take_while_inclusive by their flag (38 builders); S4 next() never sends an error and completes downstream only in the '
                'tabled early terminators. Decides the termination shape on every path and, for the tabled operators, which items are forwarded and where each emitted value comes from; does not decide what user closures compute.')
 ASSUMPTIONS = ['what user closures compute is not decided; a provenance term the dataflow cannot resolve makes that clause undecided (it passes)']
 TECHNIQUE = 'static analysis: regular-language inclusion of downstream event words, path-sensitive interval and provenance dataflow, and operator-tree matching of builder return values, all over type-checked MIR (custom rustc_private driver)'
@@ -106,6 +107,7 @@ CONTROLS = [
     'S3|<verif_controls::NoCompleteObserver<O> as Observer>::complete',
     'S4|<verif_controls::CompleteInNext<O> as Observer>::next',
     'S5|<verif_controls::AlwaysFinishedObserver<O> as Observer>::is_finished',
+    'S14|verif_controls::ctl_flush_unlocked',
     'S6|src/verif_controls.rs field `stack`',
     'S7|<verif_controls::RingLast<O, Item> as Observer>::next',
     'S8|<verif_controls::OffByOneTake<O> as Observer>::next',
@@ -137,7 +139,7 @@ OWNERS = {
     'C15': ('src/ops/finalize.rs',),
     'C20': ('src/ops/group_by.rs',),
 }
-SCOPED = ('S1', 'S2', 'S3', 'S4', 'S5', 'S12', 'S13')
+SCOPED = ('S1', 'S2', 'S3', 'S4', 'S5', 'S12', 'S13', 'S14')
 # files that serve several properties: reported under C03 and, in addition, under these
 SHARED_FILES = {'src/ops/buffer.rs': ('C04', 'C09'), 'src/ops/sample.rs': ('C09',)}
 
@@ -153,7 +155,7 @@ def _owner(f):
 
 
 def _all(cx):
-    return s1(cx) + s234(cx) + s5(cx) + s6(cx) + s7(cx) + s8(cx) + s9(cx) + s10(cx) + s11(cx) + s12(cx) + s13(cx)
+    return s1(cx) + s234(cx) + s5(cx) + s6(cx) + s7(cx) + s8(cx) + s9(cx) + s10(cx) + s11(cx) + s12(cx) + s13(cx) + s14(cx)
 
 
 def check(cx):
@@ -165,7 +167,7 @@ def envelopes(cx, prop):
     if cx.control:
         return []
     out = []
-    for f in s1(cx) + s234(cx) + s5(cx) + s12(cx) + s13(cx):
+    for f in s1(cx) + s234(cx) + s5(cx) + s12(cx) + s13(cx) + s14(cx):
         if f.rule not in SCOPED:
             continue
         file = (f.loc or '').split(':', 1)[0]
@@ -1346,6 +1348,67 @@ def query_findings(cx, fns, prop, rule, what):
         res.append(Finding(prop, rule, cx.label(fn), bad is None,
                            ('%s %s: asked from inside a callback that already reads the same cell it panics (RefCell) or blocks (Mutex), and it is not a pure observation any more' % (what, bad[1])) if bad else
                            '%s is a pure read (shared guards only, no effect)' % what, g.loc(bad[0]) if bad else fn['span']))
+    return res
+
+
+# ---- S14: a shared slot is never vacated for the duration of a call (take the content out, use it, store it back)
+def _cell_prefix(e):
+    """(root, steps up to and including the first cell dereference '@') of an access path, or None"""
+    root, steps = access_path(e)
+    if '@' not in steps:
+        return None
+    i = steps.index('@')
+    return (strip(root), tuple(st for st in steps[:i + 1] if st != '!take'))
+
+
+def s14(cx):
+    """an empty shared slot (MutRc|MutArc<Option<..>>) means 'terminated' to everybody who looks at it: is_finished() answers true,
+    next/error/complete on it are no-ops, hot sources skip and prune it. No function therefore takes the content of such a slot out
+    and stores the same value back later ("so that the cell is not locked during the call"): whatever happens in between — an item
+    of another input or thread, the terminal of the source, a retain() — is lost, and the write-back revives a stream that
+    others already saw as finished. One finding per function that writes a cell slot."""
+    F = cx.facts
+    res = []
+    n = 0
+    for fn in sorted(F.fns.values(), key=lambda f: f['key']):
+        if fn['kind'] in ('closure', 'coroutine', 'const') or not fn.get('file', '').startswith('src/') or ('verif_controls' in fn.get('file', '')) != bool(cx.control):
+            continue
+        g = cx.graph(fn['key'])
+        writes = []
+        for x in g.nodes:
+            if x['kind'] == 'assign' and '@' in access_path(x['lhs'])[1]:
+                writes.append((x, x['lhs'], [x['rhs']]))
+            elif x['kind'] == 'call' and x['args'] and x['name'] in ('std::option::Option::replace', 'std::option::Option::insert', 'std::mem::replace', 'std::option::Option::get_or_insert') \
+                    and '@' in access_path(x['args'][0])[1]:
+                writes.append((x, x['args'][0], list(x['args'][1:])))
+        if not writes:
+            continue
+        n += 1
+        bad = None
+        for x, dst, vals in writes:
+            cp = _cell_prefix(dst)
+            if cp is None:
+                continue
+            for v in vals:
+                for e in walk(v):
+                    if e[0] in ('call', 'field', 'variant') and '!take' in access_path(e)[1] and _cell_prefix(e) == cp:
+                        # the stored value was taken out of this very cell earlier in the function
+                        ap = access_path(e)[1]
+                        dp = access_path(dst)[1]
+                        ea = [st for st in ap[ap.index('@') + 1:] if st != '!take']
+                        if ea[-2:] == ['as Some', '0']:
+                            ea = ea[:-2]
+                        da = list(dp[dp.index('@') + 1:])
+                        if da[-2:] == ['as Some', '0']:
+                            da = da[:-2]
+                        if ea == da:
+                            bad = x
+        res.append(Finding(ID, 'S14', cx.label(fn) if fn.get('impl') else fn['path'], bad is None,
+                           'no slot is vacated and refilled with its own content' if bad is None else
+                           'the content of a shared slot is taken out, used, and stored back: while it is out the slot looks terminated (is_finished() true, notifications and terminals of other inputs/threads are dropped, hot sources prune it) and the write-back revives the stream',
+                           g.loc(bad) if bad is not None else fn['span'], [node_desc(g, bad)] if bad is not None else None))
+    if not cx.control and n < 10:
+        res.append(Finding(ID, 'S14', 'floor', False, 'only %d functions that write a cell slot found, expected >= 10' % n))
     return res
 
 
